@@ -124,6 +124,27 @@ pub fn run(args: &Args) {
         }
         remove_db(&db);
     }
+    // free-running histories killed by SIGKILL at a random moment (no schedule control)
+    let free = args.extra_usize("free", 0);
+    for run in 0..free {
+        let db = dir.join(format!("free{run}.sqlite"));
+        remove_db(&db);
+        let mut bodies: BTreeMap<&str, Vec<bool>> = BTreeMap::new();
+        for r in AUTHORS.iter().skip(1).take(2) {
+            bodies.insert(r, (0..REMOTE_LEN).map(remote_body).collect());
+        }
+        let remote = build_remote_ops(&ids, &bodies);
+        let net: String = (0..32)
+            .map(|k| format!("{:02x}", (args.seed as usize + run * 17 + k * 3 + 99 + std::process::id() as usize) & 0xff))
+            .collect();
+        w.event(json!({"ev": "Reset"}));
+        out.eval();
+        if let Err(e) = free_run(&mut rng, &mut w, &mut out, &db, &remote, &net, args.extra_usize("rounds", 4)) {
+            eprintln!("tool error in free run {run}: {e}");
+            std::process::exit(2);
+        }
+        remove_db(&db);
+    }
     let (events, runs) = w.finish();
     out.set_trace(events, runs);
     out.write(args);
@@ -296,6 +317,90 @@ fn one_run(
     }
     if let Some(h) = host.take() {
         h.crash();
+    }
+    Ok(())
+}
+
+/// One free-running history: `rounds` incarnations in child processes on one database file. Each
+/// incarnation is opened from the frontier, its replay is collected, then a random workload runs
+/// until the parent kills the process (SIGKILL) after a random number of completed calls.
+fn free_run(
+    rng: &mut Rng,
+    w: &mut TraceWriter,
+    out: &mut Outcome,
+    db: &std::path::Path,
+    remote: &Value,
+    net: &str,
+    rounds: usize,
+) -> Result<(), String> {
+    let mut acked_ok: Vec<Value> = Vec::new();
+    let mut published: Vec<Value> = Vec::new();
+    let mut prev_cursor = json!({});
+    for round in 0..rounds {
+        let p = if rng.chance(1, 2) { "auto" } else { "explicit" };
+        let cmd = json!({
+            "act": "Open",
+            "arg": {"p": p, "from": "frontier", "c": {}},
+            "cfg": {"db": db.to_string_lossy(), "remote": remote, "net": net, "control": false, "preobserve": true},
+        });
+        let (mut host, first) = Host::start(true, &cmd)?;
+        let pre = first["pre"].clone();
+        let drained = host.exec(&json!({"act": "Drain"}))?;
+        if drained["others"].as_array().map(|a| !a.is_empty()).unwrap_or(false) {
+            out.count("free:unexpected-events");
+        }
+        w.event(json!({
+            "ev": "FreeRestart",
+            "p": p,
+            "cursor": pre["cursor"], "stored": pre["stored"], "assoc": pre["assoc"],
+            "replayed": drained["replayed"],
+            "markers": drained["markers"],
+            "others": drained["others"],
+            "acked_ok": acked_ok, "published": published, "prev_cursor": prev_cursor,
+        }));
+        out.count("free:restarts");
+        out.mark_distinct(format!(
+            "free:{p}:replayed={}:stored={}",
+            drained["replayed"].as_array().map(|a| a.len()).unwrap_or(0),
+            pre["stored"].as_array().map(|a| a.len()).unwrap_or(0)
+        ));
+        // cursor after the replay (auto policy acks while replaying): lower bound for the next round
+        let after = host.exec(&json!({"act": "Observe"}))?;
+        prev_cursor = after["cursor"].clone();
+        acked_ok.clear();
+        published.clear();
+        if round + 1 == rounds {
+            host.crash();
+            break;
+        }
+        // workload; killed after `k` completed calls plus a random short delay
+        let n = 40u64;
+        let k = rng.range(1, n);
+        host.send_only(&json!({"act": "FreeRun", "arg": {"seed": rng.next_u64() >> 12, "n": n}}))?;
+        let mut seen = 0u64;
+        loop {
+            match host.read_only()? {
+                None => break,
+                Some(v) => {
+                    if v.get("done").is_some() {
+                        break;
+                    }
+                    let pr = &v["progress"];
+                    match pr["p"].as_str() {
+                        Some("pub") => published.push(pr["seq"].clone()),
+                        Some("ack") if pr["res"] == "ok" => acked_ok.push(pr["op"].clone()),
+                        _ => {}
+                    }
+                    seen += 1;
+                    if seen >= k {
+                        break;
+                    }
+                }
+            }
+        }
+        std::thread::sleep(std::time::Duration::from_micros(rng.below(3000)));
+        host.crash();
+        out.count("free:kills");
     }
     Ok(())
 }
